@@ -223,7 +223,8 @@ def run_case(case):
         vals = [(Mv, nv) for Mv, nv in zip((1.0, 0.3, 0.1, 0.03, 0.01), norms) if nv is not None]
         for (Ma, na), (Mb, nb) in zip(vals[:-1], vals[1:]):
             # correction = O(M^2): going from Ma to Mb < Ma it must shrink by about (Mb/Ma)^2; allow a factor 3 and the quadrature floor
-            if nb > 3.0 * na * (Mb / Ma) ** 2 + 1e-9 * scale and Ma <= 0.3:
+            # quadrature noise of two separate runs is ~1e-7..1e-6 of the scale at NLO/NNLO: only judge corrections well above it
+            if Ma <= 0.3 and na > 1e-4 * scale and nb > 3.0 * na * (Mb / Ma) ** 2 + 1e-6 * scale:
                 viol.append(dict(sig=f"tmc-continuity|{kind}|{MODES[mode]}", what=f"{name} TMC={mode} x={p['x']:.4g} Q2={p['Q2']:.4g}: |TMC-raw| = {na:.3g} at M={Ma} but {nb:.3g} at M={Mb}: does not vanish like M^2"))
         sample = dict(obs=name, point=p, M=[1.0, 0.3, 0.1, 0.03, 0.01, 0.0], dev=norms, scale=scale)
         return dict(violations=viol, compared=compared, nontrivial=sorted(nontrivial), classes=sorted(classes), sample=sample)
